@@ -100,6 +100,16 @@ CHECKS["C17"] = ("model_checking",
     "constraint-sharing pair directly linked, links only along constraints, node constraints exact; an exception is a violation.",
     "Trusted: TLC's evaluation of Graphs.tla, the projection through get_dfs_relations and the DFS numbering of the certificate form in vlib/props/C17.py. "
     "Model-checking level for <= 5 variables (exhaustive inputs), exploration beyond.", "DESIGN.md section 4 C17")
+
+CHECKS["C19"] = ("model_checking",
+    "TLC model checking of Lifecycle.tla (all histories), replay of every explored transition on the real Agent + MessagePassingComputation with projection comparison, TLC judging of the observed histories (Judge_C19 / Orders.tla)",
+    "Lifecycle.tla models MessagePassingComputation.start/pause/on_message/post_msg and the agent's priority queue (re-injection at priority 19); TLC explores all "
+    "histories of receptions, posts, start, pause, resume and agent loop iterations up to 3 (quick) / 4 received and 2 posted messages and checks: handled once, in "
+    "reception order, nothing lost, posts sent once in posting order, resume flushes both buffers. Every explored transition is replayed on a real computation hosted "
+    "on a real Agent (thread not started) and the real state (flags, both buffers, queue content with priorities, handled, sent) compared after every step; the "
+    "observed histories and 300 (quick) / 3000 longer random histories driven to quiescence are judged by TLC.",
+    "Trusted: TLC, vlib/agentrt.py (the statements of Agent._run's loop body, executed by the harness instead of the agent thread), the recording wrappers of "
+    "vlib/props/C19.py. One known finding (order lost when a computation is paused again while re-injected messages are still queued).", "DESIGN.md section 4 C19")
 NOT_YET = "check not built yet in this snapshot (work in progress, see DESIGN.md section 9)"
 
 fix_commits = subprocess.run(["git", "-C", "/repo", "log", "--format=%h %s", "aeaae91..HEAD"], capture_output=True, text=True).stdout.splitlines()
